@@ -939,5 +939,10 @@ func (m *Machine) nodeTypeAssert(itf Iface, asserted types.Type) (bool, Value) {
 
 // jsonNumberText returns the abstract string that is the text of the node's json.Number.
 func (m *Machine) jsonNumberText(n *Node) *smt.Term {
-	return m.Ctx.Var(n.Name+".jntext", smt.SStr)
+	t := m.Ctx.Var(n.Name+".jntext", smt.SStr)
+	if m.jnTexts == nil {
+		m.jnTexts = map[*smt.Term]*Node{}
+	}
+	m.jnTexts[t] = n
+	return t
 }
